@@ -444,6 +444,16 @@ class Inliner:
                 if q in self.funcs and q not in self.unknown:
                     return None  # resolved to a known (baseline) method first
                 if q in self.unknown:
+                    # a hook that a subclass overrides is dispatched dynamically: never inline it
+                    subs, grow = {cls}, True
+                    while grow:
+                        grow = False
+                        for k, bs in self.bases.items():
+                            if k not in subs and any(b in subs for b in bs):
+                                subs.add(k)
+                                grow = True
+                    if any(f"{k}.{f.attr}" in self.funcs and k != c for k in subs):
+                        return None
                     return q, self.unknown[q], True
                 todo += self.bases.get(c, [])
         if isinstance(f, ast.Attribute) and isinstance(f.value, ast.Name):
@@ -973,8 +983,10 @@ class Inliner:
                         self._typed[tg.id] = c.id
                     elif isinstance(c, ast.Attribute) and isinstance(c.value, ast.Name) and c.value.id in self.new_classes:
                         self._typed[tg.id] = c.value.id
-            if isinstance(a, (ast.For, ast.comprehension)) and isinstance(a.target, ast.Name):
-                pass
+        for _ in range(3):
+            for a in ast.walk(fn):
+                if isinstance(a, ast.Assign) and len(a.targets) == 1 and isinstance(a.targets[0], ast.Name) and isinstance(a.value, ast.Name) and a.value.id in self._typed:
+                    self._typed.setdefault(a.targets[0].id, self._typed[a.value.id])
 
     def _closure_convert(self, stmts: List[ast.stmt], cls) -> List[ast.stmt]:
         outer = self
